@@ -84,6 +84,10 @@ is_ipv6 (const char *start, const char *end)
                 /* malformed IPv4-in-IPv6 address */
                 return (NO);
             }
+            else if (null_field == 0 && field != 6) {
+                /* without `::' the dotted quad follows exactly 6 groups */
+                return (NO);
+            }
             else
         		/* NOT: Avoid recursion. */
                 return (is_ipv4 ((char *) cp - len, end));
@@ -133,6 +137,10 @@ is_ipv6 (const char *start, const char *end)
     }
     else if (len == 0 && null_field != field - 1) {
         /* bad null last field in IPv6 address */
+        return (NO);
+    }
+    else if (null_field == 0 && field != 7) {
+        /* without `::' there must be exactly 8 groups */
         return (NO);
     }
 
